@@ -346,6 +346,16 @@ impl Rasn {
                     )
                 }
             }
+            // the value's type is a reference to the ENUMERATED type, i.e. a newtype around it
+            ASN1Value::EnumeratedValue { enumerated, .. } if &ty.as_str() != enumerated => {
+                call_template!(
+                    self,
+                    primitive_value_template,
+                    tld,
+                    self.to_rust_title_case(&ty.as_str()),
+                    assignment!(self, &ty.as_str(), self.value_to_tokens(&tld.value, None)?)
+                )
+            }
             ASN1Value::EnumeratedValue {
                 enumerated,
                 enumerable,
